@@ -12,8 +12,22 @@ int vg_r, vg_w, vg_b, vh_r, vh_w, vk_r, vk_w, vg_i, vg_j;
   VP_MAT_SETUP(T##t, (1 << CH(t)), TW, (1 << CH(t)), NC, 0, 0, 0);                                 \
   VP_IN_ARR(rci_t, in_L##t, (1 << CH(t)));                                                         \
   for (int w_ = 0; w_ < (NC + 63) / 64; ++w_) VP_W(T##t, 0, w_) = 0;                               \
+  VP_CONCTAB(T##t, in_L##t, (1 << CH(t)), t);                                                      \
   tb.T[t] = T##t;                                                                                  \
   tb.L[t] = in_L##t
+
+/* CONCTAB: table contents and maps are concrete (distinct pseudo-random rows, identity maps): large chunks (9 - 11 bits per
+ * table, k >= 33) stay within memory; the rows of M stay symbolic */
+#ifdef CONCTAB
+#define VP_CONCTAB(T, L, n, t)                                                                     \
+  for (int i_ = 0; i_ < (n); ++i_) {                                                               \
+    L[i_] = i_;                                                                                    \
+    for (int w_ = 0; w_ < (NC + 63) / 64; ++w_)                                                    \
+      VP_W(T, i_, w_) = i_ == 0 ? 0 : ((((word)i_ * 0x9E3779B97F4A7C15ULL) ^ ((word)(t + 1) << (7 * w_ + 3)) ^ ((word)i_ << 40)) & VP_CELLMASK(T, w_)); \
+  }
+#else
+#define VP_CONCTAB(T, L, n, t) ((void)0)
+#endif
 
 void harness(void) {
   VP_MAT_DECL(M, PR, PRS);
